@@ -33,6 +33,9 @@ type GenOptions struct {
 	// another one, of one that others depend on, or of an independent one. The service has one
 	// component per id; it must be started and shut down exactly once, in dependency order.
 	RepeatedExtensions bool
+	// RepeatedMentions: some pipelines list one of their receivers or exporters twice (validation only rejects a
+	// repeated processor): it is one component, reached once per path
+	RepeatedMentions bool
 }
 
 func (o *GenOptions) defaults() {
@@ -241,6 +244,17 @@ func GenTopology(rng *rand.Rand, o GenOptions) *Topology {
 		}
 		if len(p.Exporters) == 0 {
 			p.Exporters = pick(rng, expPool, 1, 2)
+		}
+	}
+	if o.RepeatedMentions {
+		for i := range t.Pipelines {
+			p := &t.Pipelines[i]
+			if rng.Intn(3) == 0 && len(p.Exporters) > 0 {
+				p.Exporters = append(p.Exporters, p.Exporters[rng.Intn(len(p.Exporters))])
+			}
+			if rng.Intn(4) == 0 && len(p.Receivers) > 0 {
+				p.Receivers = append(p.Receivers, p.Receivers[rng.Intn(len(p.Receivers))])
+			}
 		}
 	}
 	// component sections: the whole pools are configured, so unused components exist too
